@@ -90,6 +90,12 @@ theorem gcLockDrop_del : AllOps (DeleteOpQ D Q) gcLockDrop := by
   have h3 : DeleteOpQ D Q (.removeFile .gcLock) := by simp [DeleteOpQ]
   allops
 
+theorem gcLockReleaseOnError_del : AllOps (DeleteOpQ D Q) gcLockReleaseOnError := by
+  unfold gcLockReleaseOnError
+  have h3 : DeleteOpQ D Q (.removeFile .gcLock) := by simp [DeleteOpQ]
+  have h4 : AllOps (DeleteOpQ D Q) gcLockDrop := gcLockDrop_del
+  allops
+
 theorem bandDelete_del {b : Nat} (hb : b ∈ D) : AllOps (DeleteOpQ D Q) (bandDelete b) := by
   unfold bandDelete
   have h : DeleteOpQ D Q (.removeDirAll (.bandDir b)) := ⟨b, hb, rfl⟩
@@ -168,6 +174,7 @@ theorem deleteBands_del (strict : Bool) (o : DeleteOpts) :
   have h1 : AllOps (DeleteOp D) gcLockNew := gcLockNew_bk.bk_del
   have h2 : AllOps (DeleteOp D) gcBreakLock := gcBreakLock_del
   have h3 : AllOps (DeleteOp D) gcLockDrop := gcLockDrop_del
+  have h3' : AllOps (DeleteOp D) gcLockReleaseOnError := gcLockReleaseOnError_del
   allops [deleteBody_del]
 
 end
